@@ -245,6 +245,9 @@ func (e *Engine) runBlocks(fr *frame, b *ssa.BasicBlock) Value {
 				e.lastPanic = gp
 				panic(gp)
 			default:
+				if p := in.Pos(); p.IsValid() {
+					e.pos = p
+				}
 				e.exec(fr, in)
 			}
 		}
@@ -704,6 +707,10 @@ func (e *Engine) load(p *Pointer, t types.Type, pos token.Pos) Value {
 		return e.loadCell(p.cell)
 	}
 	// byte pointer
+	e.raceAccessBytes(p.bobj, false, pos)
+	if t == nil {
+		return e.tt.Select(p.bobj.arr, p.idx)
+	}
 	if at, ok := t.Underlying().(*types.Array); ok {
 		n := int(at.Len())
 		a := &Array{elems: make([]Value, n)}
@@ -724,6 +731,7 @@ func (e *Engine) store(p *Pointer, v Value, t types.Type, pos token.Pos) {
 		e.storeCell(p.cell, v)
 		return
 	}
+	e.raceAccessBytes(p.bobj, true, pos)
 	if a, ok := v.(*Array); ok {
 		for i, el := range a.elems {
 			p.bobj.arr = e.tt.Store(p.bobj.arr, e.tt.Bin(OpAdd, p.idx, e.c64(uint64(i))), el.(*Term))
@@ -1390,3 +1398,6 @@ func (e *Engine) allocCheck(n *Term) {
 	}
 	e.doAssert(cond, id)
 }
+
+// curPos: source position of the instruction being executed (best effort).
+func (e *Engine) curPos() token.Pos { return e.pos }
